@@ -86,12 +86,23 @@ def main(argv):
         kfail = open(os.path.join(cdir, "KernelGen.v.failed")).read().strip()
     except OSError:
         kfail = "KernelGen.v was not generated"
-    ktie = {"generated_from": "clang AST of key.c, rdbx.c, rdb.c, srtp.c (tools/gen_kernels.py)",
-            "functions": ["srtp_key_limit_update", "srtp_key_limit_set", "srtp_index_guess", "srtp_rdb_increment", "srtp_estimate_index"],
-            "translator_failures": kfail, "equivalence_proofs_compiled": bool(status.get("KernelGenProofs.v"))}
+    kproofs = bool(status.get("KernelGenProofs.v")) and bool(status.get("KernelGenProofs2.v"))
+    ktie = {"generated_from": "clang AST of key.c, rdbx.c, rdb.c, datatypes.c, srtp.c (tools/gen_kernels.py)",
+            "functions": ["srtp_key_limit_update", "srtp_key_limit_set", "srtp_index_guess", "srtp_rdb_increment", "srtp_estimate_index",
+                          "srtp_index_advance", "srtp_rdbx_estimate_index", "srtp_rdbx_check", "srtp_rdbx_get_roc", "srtp_rdbx_get_packet_index",
+                          "srtp_rdb_check", "v128_left_shift", "bitvector_set_to_zero", "bitvector_left_shift", "srtp_rdb_add_index",
+                          "srtp_rdbx_add_index", "srtp_rdbx_set_roc_seq"],
+            "translator_failures": kfail, "equivalence_proofs_compiled": kproofs}
+    if tier == "thorough" and not kfail:
+        # supporting run for the translator itself (trusted base of this tie): the real C functions against the generated Gallina
+        try:
+            r = vlib.sh(["sh", os.path.join(VERIF, "tools/kernels_difftest.sh"), vlib.REPO, os.path.join(cdir, "cb"), os.path.join(qdir, "coq")], timeout=1200)
+            ktie["translator_difftest"] = (r.stdout.strip().split("\n") or [""])[-1][:120] if r.returncode == 0 else "FAILED: " + (r.stderr or r.stdout)[-300:]
+        except Exception as e:      # a supporting run: its failure is reported, it decides nothing
+            ktie["translator_difftest"] = "not run: " + str(e)[:120]
     ev["coverage"]["kernel_tie"] = ktie
-    if kfail or not status.get("KernelGenProofs.v"):
-        notes.append("generated-kernel tie does not check (" + (kfail or "KernelGenProofs.v does not compile against the regenerated KernelGen.v")[:160] +
+    if kfail or not kproofs:
+        notes.append("generated-kernel tie does not check (" + (kfail or "KernelGenProofs.v / KernelGenProofs2.v do not compile against the regenerated KernelGen.v")[:160] +
                      "): the kernels' C text changed shape; the hand-written kernel models remain tied by the correspondence runs")
     warn = open(os.path.join(cdir, "Constants.v.warn")).read().split()
     if warn:
